@@ -91,3 +91,20 @@ Definition S_link_load_par : Prop := forall le st f text cuts g sels arrival res
   exists bs lens,
     par_comp le cs p cuts g sels arrival = SpliceOk bs lens (nsum (map nlen g)) (nlen g)
     /\ load_seq le text (bs ++ rest) = Some (g, rest).
+
+(** ** The [--dcf] pipeline (C10 o C04 o C12): cutpoints balanced on the degree cumulative
+    function of the graph itself ([ParGraph::with_dcf], any number of parts [k > 0], any
+    degree distribution — arcless graphs, trailing sinks, [k] larger than the node count)
+    are legal cutpoints for parallel compression, and what it writes loads back. *)
+From WG Require Import Split.Model.
+Definition S_link_dcf_par_load : Prop := forall le st f text g sels arrival rest k,
+  to_props le st f = Some text -> stats_for g st -> Forall inc g -> 0 < k ->
+  let cs := fl_codes f in let p := params_of_flags f in
+  let cwf := dcf_of (scan g) in
+  let cuts := dcf_cuts cwf (nlen g) (last cwf 0) k in
+  valid_sels p (segments cuts g) sels = true ->
+  Permutation arrival (seq 0 (length cuts - 1)) ->
+  legal_cuts cuts (nlen g) = true
+  /\ exists bs lens,
+       par_comp le cs p cuts g sels arrival = SpliceOk bs lens (nsum (map nlen g)) (nlen g)
+       /\ load_seq le text (bs ++ rest) = Some (g, rest).
